@@ -6,7 +6,9 @@ function per C function / loop of `lib/tar` and of the conversion code of `tar2s
 -/
 import Sqfs.Proofs.TarNumber
 import Sqfs.Proofs.TarHeader
+import Sqfs.Proofs.TarHeaderRT
 import Sqfs.Proofs.TarSparse
+import Sqfs.Proofs.TarSparseChunk
 import Sqfs.Proofs.TarConv
 namespace Sqfs.C04
 open Sqfs.Tar
@@ -179,6 +181,58 @@ theorem schily_record_length (key value : Bytes) :
     simp only [hp, List.length_append, decStr_length, prefix_digit_len_correct, List.length_cons, List.length_nil]
     omega
 
+/-! ## header round trip -/
+
+/-
+Full statement (NOT proved; evaluated on the real code on every run instead — `enc` → `dec` in tools/checks/c04.py):
+
+  header_roundtrip : ∀ e tgt xs n rest, supported e → NUL-free names/targets/keys, ids < 0x7F·2^56 →
+      readHeader ((writeTarHeader e tgt xs n).get ++ rest) =
+        .ok { name := e.name, link := tgt, mode := modeOf e, uid := e.uid, gid := e.gid, mtime := e.mtime,
+              recordSize := sizeOf e, actualSize := sizeOf e, devMajor/devMinor, hardLink := e.hardLink,
+              xattr := xs.reverse } rest
+      (for every entry kind, name/link lengths on both sides of 100 — GNU 'L'/'K' records —, every numeric encoding,
+       xattrs through the SCHILY.xattr PAX record)
+  pax_record_roundtrip : paxLine false st (schilyRecord k v ++ rest) = some ({st with xattr := (k, v) :: st.out.xattr}, len)
+
+What is missing: slicing the 17 fields back out of the 512-byte record (`slice (updateChecksum (rawHeader …)) off n`),
+and the loop of `read_header` over up to three extension records.  What is proved (this theorem and the ones above):
+the record has the right size and a checksum the reader accepts, and every *field codec* the decoder applies inverts
+the corresponding field writer: string fields, the three number encodings at both field widths, signed mtime, and the
+self-referential PAX length.
+-/
+theorem header_roundtrip_partial (e : WEntry) (name : Bytes) (slink : Option Bytes) (tf : UInt8) :
+    (writeHeaderRec e name slink tf).length = 512 ∧ isChecksumValid (writeHeaderRec e name slink tf) = true ∧
+    (∀ n : Bytes, n.length ≤ 99 → (∀ x ∈ n, x ≠ 0) → strn (field 100 (n.take 99)) = n) ∧           -- name
+    (∀ t : Bytes, t.length ≤ 99 → (∀ x ∈ t, x ≠ 0) → strn (field 100 (t.take t.length)) = t) ∧     -- link target (`ent->size` bytes)
+    (∀ v, v < 127 * 2 ^ 56 → readNumber (writeNumber v 8) = some v) ∧                               -- mode, uid, gid, devmajor, devminor
+    (∀ v, v < U64 → readNumber (writeNumber v 12) = some v) ∧                                       -- size
+    (∀ m : Int, -9223372036854775808 ≤ m → m < 9223372036854775808 →
+        (readNumber (writeNumberSigned m 12)).map toSigned = some m) := by                         -- mtime
+  have hlen : ∀ l : Bytes, l.length = 100 →
+      (rawHeader (field 100 (name.take 99)) (perm e.mode) e.uid e.gid (if fmt e.mode = S_IFREG then e.size else 0) e.mtime tf l
+        (if fmt e.mode = S_IFCHR ∨ fmt e.mode = S_IFBLK then
+            (if e.devMajor ≥ 2147483648 then e.devMajor % 4294967296 + (U64 - 4294967296) else e.devMajor) else 0)
+        (if fmt e.mode = S_IFCHR ∨ fmt e.mode = S_IFBLK then
+            (if e.devMinor ≥ 2147483648 then e.devMinor % 4294967296 + (U64 - 4294967296) else e.devMinor) else 0)).length = 512 :=
+    fun l hl => rawHeader_length _ _ _ _ _ _ _ _ _ _ (field_length _ _) hl
+  have hl : (match slink with | some t => field 100 (t.take e.size) | none => zeros 100).length = 100 := by
+    cases slink <;> simp [field_length, zeros_length]
+  obtain ⟨c1, _, _, _, c5⟩ := checksum_roundtrip _ (hlen _ hl)
+  refine ⟨c5, c1, ?_, ?_, ?_, ?_, ?_⟩
+  · intro n hn hnul
+    rw [List.take_of_length_le (by omega)]
+    exact strn_field 100 n (by omega) hnul
+  · intro t ht hnul
+    rw [List.take_of_length_le (Nat.le_refl _)]
+    exact strn_field 100 t (by omega) hnul
+  · intro v hv
+    exact number_roundtrip v 8 (by omega) (by simp only [U64]; omega) (Or.inr (Or.inr ⟨rfl, hv⟩))
+  · intro v hv
+    exact number_roundtrip v 12 (by omega) hv (Or.inr (Or.inl (by omega)))
+  · intro m h1 h2
+    exact number_roundtrip_signed m 12 (by omega) ⟨h1, h2⟩
+
 /-! ## sparse files (`iterator.c`) -/
 
 /--
@@ -198,6 +252,22 @@ theorem sparse_expand_spec (m : List (Nat × Nat)) (fileSize : Nat) (s : Bytes)
   unfold expand
   have := expandLoop_wf m [] 0 fileSize (2 * m.length + fileSize + 4) (dataBytes m) s []
     (by simpa using hne) (by intro e he; cases he) hwf hs (Nat.le_refl _) h64 (by omega)
+  simpa using this
+
+/--
+… and the same holds for the walk exactly as the C stream performs it for a caller that reads in calls of `want`
+bytes (`sqfs_istream_read(…, want)` in the harness, `sqfs_istream_splice(…, block_size)` in tar2sqfs), for **every**
+request size `want ≥ 1`: on a well-formed map the result does not depend on how the reads are split.
+-/
+theorem sparse_expand_spec_any_request_size (want : Nat) (hw : 1 ≤ want) (m : List (Nat × Nat)) (fileSize : Nat) (s : Bytes)
+    (hne : m ≠ []) (hwf : WellFormedMap 0 m fileSize) (hs : dataBytes m ≤ s.length) (h64 : dataBytes m < U64) :
+    expandC want m fileSize (dataBytes m) s =
+      ⟨specExpand 0 m fileSize s, s.drop (dataBytes m), 0, .eof⟩ := by
+  unfold expandC
+  obtain ⟨e1, e2⟩ := specFromI_wf 0 m fileSize s hwf
+  have := expandLoopC_wf want hw m [] 0 fileSize (fileSize + 4) (dataBytes m) s []
+    (by simpa using hne) (by intro e he; cases he) (wf_to_wfi _ _ _ hwf) (by rw [e2]; exact hs) (by rw [e2]) h64 (by omega)
+  rw [e1, e2] at this
   simpa using this
 
 /-- the specified expansion has exactly `file_size` bytes -/
@@ -362,6 +432,27 @@ theorem implicit_parents (o : ConvOpts) (t t' : List TNode) (e : CEntry) (h : ad
             · simp only [Option.some.injEq] at h
               subst h
               exact ⟨n, List.mem_append_left _ hn, hnp, hnd⟩
+
+/-! ## fix-point -/
+
+/-
+Full statement (NOT proved in Lean; decided by execution on every run — `c04_tools` sub-check C):
+
+  fixpoint : ∀ img opts, let img2 := tar2sqfs opts (sqfs2tar opts img); let img3 := tar2sqfs opts (sqfs2tar opts img2);
+      img3 = img2 (byte for byte) ∧ tree img2 = tree img (minus sockets)
+
+It needs the image serializer and reader (C01), the determinism of packing (C02) and hard-link resolution (C07) composed
+with the models of this file; that composition is not done.  Proved here is the tree-level core: an entry that comes
+back out of an image (time stamp inside the 32-bit range, non-empty canonical name) passes through `process_tarball`
+unchanged, so the second conversion builds its tree from exactly the entries of the first; and the clamp is idempotent.
+-/
+theorem fixpoint_entry_level_partial (o : ConvOpts) (e : CEntry) (h : o.rootBecomes = none) (hk : o.keepTime = true)
+    (hm : 0 ≤ e.mtime ∧ e.mtime ≤ 4294967295) (hn : e.name ≠ []) :
+    processEntry o e = .node e ∧ clampMtime (clampMtime e.mtime) = clampMtime e.mtime := by
+  have hc : clampMtime e.mtime = e.mtime := (mtime_clamp e.mtime).2.2.1 hm.1 hm.2
+  refine ⟨?_, by rw [hc, hc]⟩
+  unfold processEntry processEntryWith
+  simp only [h, hn, hk, hc, if_false, if_true]
 
 /-! ### layout facts the models rely on, re-checked against `include/tar/format.h` on every run
 (`Sqfs/Generated/Consts.lean` is regenerated from the working tree; a changed offset or width breaks this build) -/
